@@ -6,6 +6,7 @@ package main
 // `vegeta report` command.
 
 import (
+	"bytes"
 	"encoding/json"
 	"fmt"
 	"math"
@@ -180,30 +181,67 @@ func (k *checker) oracleHDR(source string, rows []hdrRow, ok bool, sorted []int6
 		return
 	}
 	st := structured(sorted)
-	prevV, prevQ := math.Inf(-1), math.Inf(-1)
-	rankReported := false
-	for i, row := range rows {
+	// the property speaks of the values as the percentile grows: judge the rows in percentile order
+	// (the listing order itself is not prescribed), percentiles given as fractions or as per cent
+	type prow struct {
+		v, q  float64
+		slack int64 // half a unit of the last printed decimal of the value, in ns
+		row   hdrRow
+	}
+	var ps []prow
+	qmax := 0.0
+	for _, row := range rows {
 		v, e1 := strconv.ParseFloat(row.value, 64)
 		q, e2 := strconv.ParseFloat(row.q, 64)
 		if e1 != nil || e2 != nil {
-			s.Violate(kit.Violation{Kind: "hdr_report_failed", What: source + ": unparsable HDR row", Input: repl, Observed: fmt.Sprint(row), Key: key(nil)})
-			return
+			continue
 		}
-		if q >= prevQ && v < prevV {
+		dec := 0
+		if i := strings.IndexByte(row.value, '.'); i >= 0 {
+			dec = len(row.value) - i - 1
+		}
+		slack := int64(0)
+		if dec < 6 {
+			slack = int64(math.Ceil(0.5 * math.Pow(10, float64(6-dec))))
+		}
+		if q > qmax {
+			qmax = q
+		}
+		ps = append(ps, prow{v, q, slack, row})
+	}
+	if len(ps) == 0 {
+		s.Violate(kit.Violation{Kind: "hdr_report_failed", What: source + ": HDR plot listing without a numeric row", Input: repl, Key: key(nil)})
+		return
+	}
+	if qmax > 1 && qmax <= 100 {
+		for i := range ps {
+			ps[i].q /= 100
+		}
+	}
+	if !sort.SliceIsSorted(ps, func(i, j int) bool { return ps[i].q < ps[j].q }) {
+		s.Count("stat:hdr rows not listed in percentile order")
+		sort.SliceStable(ps, func(i, j int) bool { return ps[i].q < ps[j].q })
+	}
+	prevV := math.Inf(-1)
+	rankReported := false
+	for i, pr := range ps {
+		v, q, row := pr.v, pr.q, pr.row
+		if v < prevV {
 			s.Violate(kit.Violation{Kind: "hdr_rows_decrease", What: fmt.Sprintf("%s: HDR row %d: value decreases while the percentile grows", source, i), Input: repl,
 				Expected: fmt.Sprintf(">= %f", prevV), Observed: fmt.Sprint(row), Key: key(map[string]interface{}{"row": i})})
 			return
 		}
-		if q < prevQ {
-			s.Violate(kit.Violation{Kind: "hdr_ladder_unsorted", What: fmt.Sprintf("%s: HDR row %d: percentile column decreases", source, i), Input: repl, Observed: fmt.Sprint(row), Key: key(nil)})
-			return
-		}
-		prevV, prevQ = v, q
-		// the value column is milliseconds with six decimals, i.e. nanoseconds (exact below 2^43 ns; two
-		// nanoseconds of slack are granted for the float rendering above that)
+		prevV = v
+		// the value column is milliseconds; with six decimals that is nanoseconds (exact below 2^43 ns; two
+		// nanoseconds of slack are granted for the float rendering above that, half a unit of the last
+		// decimal when fewer decimals are printed)
 		ns := int64(math.Round(v * 1e6))
+		slack := pr.slack
+		if ns >= 1<<43 && slack < 2 {
+			slack = 2
+		}
 		if sorted[0] == sorted[n-1] {
-			if d := ns - sorted[0]; (ns < 1<<43 && d != 0) || d > 2 || d < -2 {
+			if d := ns - sorted[0]; d > slack || d < -slack {
 				s.Violate(kit.Violation{Kind: "all_equal", What: fmt.Sprintf("%s: all latencies equal but HDR row %d shows another value", source, i), Input: repl,
 					Expected: fmt.Sprintf("%f", float64(sorted[0])/1e6), Observed: fmt.Sprint(row), Key: key(map[string]interface{}{"row": i})})
 				return
@@ -211,10 +249,6 @@ func (k *checker) oracleHDR(source string, rows []hdrRow, ok bool, sorted []int6
 		}
 		if q < 0 || q > 1 || rankReported {
 			continue
-		}
-		slack := int64(0)
-		if ns >= 1<<43 {
-			slack = 2
 		}
 		okR, off := rankWindowRange(sorted, ns-slack, ns+slack, q)
 		if okR {
@@ -236,55 +270,117 @@ func (k *checker) oracleHDR(source string, rows []hdrRow, ok bool, sorted []int6
 
 // ---- reports as text
 
-func parseJSONLatencies(b []byte) ([]int64, bool) {
-	var rep struct {
-		Latencies map[string]int64 `json:"latencies"`
+// The parsers below take from a report only what the property speaks about — the six latency
+// values, or (value, percentile) pairs — and tolerate everything the property does not fix: column
+// alignment, extra columns, fields, lines, comment lines, header wording, number of decimals.
+
+var jsonNames = [][]string{{"min"}, {"50th", "p50", "50"}, {"90th", "p90", "90"}, {"95th", "p95", "95"}, {"99th", "p99", "99"}, {"max"}}
+
+func jsonNs(v interface{}) (int64, bool) {
+	switch x := v.(type) {
+	case json.Number:
+		if i, err := x.Int64(); err == nil {
+			return i, true
+		}
+		if f, err := x.Float64(); err == nil {
+			return int64(f), true
+		}
+	case string:
+		if d, err := time.ParseDuration(x); err == nil {
+			return int64(d), true
+		}
 	}
-	if err := json.Unmarshal(b, &rep); err != nil || rep.Latencies == nil {
-		return nil, false
-	}
-	var out []int64
-	for _, f := range []string{"min", "50th", "90th", "95th", "99th", "max"} {
-		v, ok := rep.Latencies[f]
+	return 0, false
+}
+
+// parseJSONReports decodes every JSON value in b (one per periodic report) and returns the latency chains.
+func parseJSONReports(b []byte) ([][]int64, bool) {
+	dec := json.NewDecoder(bytes.NewReader(b))
+	dec.UseNumber()
+	var out [][]int64
+	for {
+		var rep map[string]interface{}
+		if err := dec.Decode(&rep); err != nil {
+			break
+		}
+		lat, ok := rep["latencies"].(map[string]interface{})
 		if !ok {
 			return nil, false
 		}
-		out = append(out, v)
-	}
-	return out, true
-}
-
-// parseTextLatencies reads "Latencies [min, mean, 50, 90, 95, 99, max] a, b, c, d, e, f, g".
-func parseTextLatencies(b []byte) ([]int64, bool) {
-	for _, ln := range strings.Split(string(b), "\n") {
-		if !strings.HasPrefix(ln, "Latencies") {
-			continue
-		}
-		i := strings.Index(ln, "]")
-		if i < 0 {
-			return nil, false
-		}
-		parts := strings.Split(ln[i+1:], ",")
-		if len(parts) != 7 {
-			return nil, false
-		}
-		var ds []int64
-		for _, p := range parts {
-			d, err := time.ParseDuration(strings.TrimSpace(p))
-			if err != nil {
+		var ch []int64
+		for _, names := range jsonNames {
+			found := false
+			for _, nm := range names {
+				if v, ok := lat[nm]; ok {
+					if ns, ok := jsonNs(v); ok {
+						ch = append(ch, ns)
+						found = true
+						break
+					}
+				}
+			}
+			if !found {
 				return nil, false
 			}
-			ds = append(ds, int64(d))
 		}
-		return []int64{ds[0], ds[2], ds[3], ds[4], ds[5], ds[6]}, true // drop the mean
+		out = append(out, ch)
 	}
-	return nil, false
+	return out, len(out) > 0
 }
 
-// lastJSONLine: with -every the output file holds one report per tick plus the final one.
-func lastLine(b []byte) []byte {
-	lines := strings.Split(strings.TrimRight(string(b), "\n"), "\n")
-	return []byte(lines[len(lines)-1])
+func parseJSONLatencies(b []byte) ([]int64, bool) {
+	all, ok := parseJSONReports(b)
+	if !ok {
+		return nil, false
+	}
+	return all[len(all)-1], true
+}
+
+// parseTextLatencies finds the LAST line mentioning latencies with a bracketed label list and as many
+// duration values after it (`Latencies [min, mean, 50, 90, 95, 99, max] a, b, …`, any alignment) and
+// picks min, 50, 90, 95, 99, max by label.
+func parseTextLatencies(b []byte) ([]int64, bool) {
+	var res []int64
+	for _, ln := range strings.Split(string(b), "\n") {
+		if !strings.Contains(strings.ToLower(ln), "latenc") {
+			continue
+		}
+		i, j := strings.Index(ln, "["), strings.Index(ln, "]")
+		if i < 0 || j < i {
+			continue
+		}
+		labels := strings.FieldsFunc(ln[i+1:j], func(r rune) bool { return r == ',' || r == ' ' || r == '\t' })
+		vals := strings.FieldsFunc(ln[j+1:], func(r rune) bool { return r == ',' || r == ' ' || r == '\t' })
+		if len(labels) == 0 || len(vals) < len(labels) {
+			continue
+		}
+		byLabel := map[string]int64{}
+		good := true
+		for k, lb := range labels {
+			d, err := time.ParseDuration(vals[k])
+			if err != nil {
+				good = false
+				break
+			}
+			byLabel[strings.ToLower(strings.TrimSuffix(strings.TrimPrefix(strings.ToLower(lb), "p"), "th"))] = int64(d)
+		}
+		if !good {
+			continue
+		}
+		var ch []int64
+		for _, want := range []string{"min", "50", "90", "95", "99", "max"} {
+			v, ok := byLabel[want]
+			if !ok {
+				good = false
+				break
+			}
+			ch = append(ch, v)
+		}
+		if good {
+			res = ch
+		}
+	}
+	return res, res != nil
 }
 
 // cliReports runs `vegeta report` (-type json / text / hdrplot, optionally -every) on a results file
@@ -347,17 +443,16 @@ func (k *checker) cliReports(lats []int64, sorted []int64, repl spec, hasZero bo
 		}
 		switch t {
 		case "json":
-			lines := strings.Split(strings.TrimRight(string(data), "\n"), "\n")
-			if len(lines) > 1 {
+			chains, ok := parseJSONReports(data)
+			if !ok {
+				s.Count("oracle:skipped cli:json (latency fields not recognised)")
+				continue
+			}
+			if len(chains) > 1 {
 				s.Count("cli:json output with intermediate reports")
 			}
-			for j, ln := range lines {
-				ch, ok := parseJSONLatencies([]byte(ln))
-				if !ok {
-					s.Violate(kit.Violation{Kind: "report_command_failed", What: "vegeta report -type=json: unparsable output", Input: repl, Observed: clip(ln), Key: key})
-					break
-				}
-				if j < len(lines)-1 { // a report on an unknown prefix: only the ordering can be judged
+			for j, ch := range chains {
+				if j < len(chains)-1 { // a report on an unknown prefix: only the ordering can be judged
 					for a := 0; a+1 < len(ch); a++ {
 						if ch[a] > ch[a+1] {
 							s.Violate(kit.Violation{Kind: "percentile_order", What: fmt.Sprintf("cli:json intermediate report: %s > %s", chainNames[a], chainNames[a+1]), Input: repl, Observed: fmt.Sprint(ch), Key: key})
@@ -372,25 +467,15 @@ func (k *checker) cliReports(lats []int64, sorted []int64, repl spec, hasZero bo
 				}
 			}
 		case "text":
-			// with -every the file holds several reports; judge the last
-			idx := strings.LastIndex(string(data), "Requests")
-			if idx < 0 {
-				s.Violate(kit.Violation{Kind: "report_command_failed", What: "vegeta report -type=text: unparsable output", Input: repl, Observed: clip(string(data)), Key: key})
-				continue
-			}
-			ch, ok := parseTextLatencies(data[idx:])
+			// with -every the file holds several reports; the last latency line is judged
+			ch, ok := parseTextLatencies(data)
 			if !ok {
-				s.Violate(kit.Violation{Kind: "report_command_failed", What: "vegeta report -type=text: unparsable output", Input: repl, Observed: clip(string(data)), Key: key})
+				s.Count("oracle:skipped cli:text (latency line not recognised)")
 				continue
 			}
 			k.oracleChain(view{"cli:text", ch, false}, sorted, repl, hasZero)
 		case "hdrplot":
-			idx := strings.LastIndex(string(data), "Value(ms)")
-			if idx < 0 {
-				k.oracleHDR("cli:hdrplot", nil, false, sorted, repl, hasZero)
-				continue
-			}
-			rows, ok := parseHDR(data[idx:])
+			rows, ok := parseHDR(data)
 			k.oracleHDR("cli:hdrplot", rows, ok, sorted, repl, hasZero)
 		}
 	}
